@@ -137,6 +137,21 @@ def roots(tier, seed):
                     case = alpha.base_case(n, pats, "in", obj, cons)
                     case["explore"] = 0
                     out.append(case)
+    # (G) radius_final = 0: the resolution and the radius decrease until they underflow (flat objectives
+    #     make every step short, so this needs no evaluation budget)
+    for n in ns:
+        for obj in ["const", "zero", "lin", "abs"]:
+            for cons in ["none", "lin_le", "lin_mixed", "ball_le", "ball_eq"]:
+                for pats in [("free",) * n, ("wide",) * n, ("oddw", "oddn")[:n]]:
+                    for debug in (False, True):
+                        for r0 in (2.0 ** -10, 2.0 ** -1060):
+                            for scale in ((False, True) if pats[0] != "free" else (False,)):
+                                case = alpha.base_case(n, pats, "out" if pats[0] != "free" else "in", obj, cons,
+                                                       options={"radius_init": r0, "radius_final": 0.0, "debug": debug,
+                                                                "maxfev": 40, "scale": scale, "maxiter": 4000})
+                                case["tag"]["special"] = "radius-underflow"
+                                case["explore"] = 0
+                                out.append(case)
     # (F) malformed arguments
     for name in MALFORMED:
         out.append({"malformed": name, "n": 2})
@@ -201,7 +216,10 @@ def _stats(rec, table, stats):
         f, m = float(rec.res.fun), float(rec.res.maxcv)
         if f != f or m != m:
             stats["nan_results"] = stats.get("nan_results", 0) + 1
-    if rec.case.get("tag", {}).get("special"):
+    if rec.case.get("tag", {}).get("special") == "radius-underflow":
+        if rec.res is not None and int(rec.res.status) == 0:
+            stats["radius_underflow_runs"] = stats.get("radius_underflow_runs", 0) + 1
+    elif rec.case.get("tag", {}).get("special"):
         stats["special_box_runs"] = stats.get("special_box_runs", 0) + 1
     for p in rec.pcalls:
         if p["ret"] is not None and abs(p["ret"][0]) >= 2.0 ** 100:
@@ -217,5 +235,5 @@ def run_case(case):
 
 def coverage(agg, tier, roots_):
     need = ["deviated_runs", "evals_tr", "evals_geo", "nan_results", "special_box_runs", "barrier_applied",
-            "malformed_calls", "status_2", "status_-1"]
+            "malformed_calls", "status_2", "status_-1", "radius_underflow_runs"]
     return e1prop.coverage_generic(agg, tier, roots_, RULE, need=need, dev_bound=2 if tier == "thorough" else 1)
